@@ -1017,7 +1017,11 @@ void WrErrorString(
         OpenWithStandard(&ErrorFile, ErrorName);
     }
     pErrFile = ErrorFile ? ErrorFile : stdout;
-    if (strcmp(LstName, "!1") || !ListOn || !ErrorsWrittenToListing) {
+    /* leave the message out only where it would appear twice in the same place: the
+       listing goes to the console and the error channel is the console as well */
+
+    if (strcmp(LstName, "!1") || !ListOn || !ErrorsWrittenToListing
+        || (ErrorFile && (ErrorFile != stdout))) {
         for (z = 0; z <= ErrStrCount; z++) {
             if (ErrorFile) {
                 fprintf(pErrFile, "%s\n", z ? ErrStr[z] : First.p_str);
